@@ -257,6 +257,29 @@ fn bits_row<W: Num>(run: &mut Run, rng: &mut Rng) {
         qbits += 1;
         run.h(b as u64 + 2);
     }
+    // decoder exhaustion for the queue: not exhausted while whole words are left, possibly
+    // exhausted after exactly the written bits
+    {
+        let mut qd = qu.into_decoder().unwrap_infallible();
+        let mut read = 0usize;
+        while read < qbits {
+            let whole_words_left = (qbits.div_ceil(w) * w - read) / w > 0 && read % w == 0 && qbits - read >= w;
+            if whole_words_left && qd.maybe_exhausted() {
+                run.violation("exhaustion", "C18/bits-maybe_exhausted", format!("QueueDecoder<{}> claims maybe_exhausted() after {read} of {qbits} bits with whole words unread", W::NAME));
+                return;
+            }
+            if qd.read_bit().unwrap_infallible().is_none() {
+                run.violation("wrong-bit", "C18/bits-roundtrip", format!("QueueDecoder<{}> ran dry after {read} of {qbits} bits", W::NAME));
+                return;
+            }
+            read += 1;
+        }
+        if !qd.maybe_exhausted() {
+            run.violation("exhaustion", "C18/bits-maybe_exhausted", format!("QueueDecoder<{}> not maybe_exhausted() after reading exactly the {qbits} bits that were written", W::NAME));
+            return;
+        }
+        run.count("bit_decoder_exhaustion_checks", 1);
+    }
     run.count("bit_queries", 2 * (n as u64 + 1));
     run.describe(|| format!("BITS W={} n={n}", W::NAME));
 }
